@@ -146,6 +146,8 @@ def curated():
     add({"Root": [rule("\\Aa|c"), rule("(?m)^b|a"), rule("(?s).")]})
     # a whole-input literal: ^lit$ / \Alit\z match only when nothing follows
     add({"Root": [rule("^a$"), rule("\\Aab\\z"), rule("^b\\z"), rule("(?s).")]})
+    # a state without any rule (legal: Push only needs the state to exist): entering it with input left is an error, not a panic
+    add({"Root": [rule("a"), rule("b", act="push", state="S1")], "S1": []})
     # a rule named like the end-of-input symbol is an ordinary rule with a type of its own
     add({"Root": [named("EOF", "b"), rule("a", act="push", state="S1"), rule("(?s).")], "S1": [named("EOF", "b", "pop"), rule("a")]})
     return K
